@@ -20,7 +20,8 @@ Next == t + Shards <= N /\ t' = t + Shards
 Spec == Init /\ [][Next]_t
 
 Judge ==
-  LET r   == Trace[t]
+  LET r0  == Trace[t]
+      r   == [r0 EXCEPT !.stree = Unflat(@), !.outs = [n \in DOMAIN r0.outs |-> [r0.outs[n] EXCEPT !.tree = Unflat(@)]]]
       f06 == C06_Failures(r)
       f15 == C15_Failures(r)
       wok == \A n \in DOMAIN r.traced :
